@@ -312,6 +312,11 @@ private:
             }
             case semantic_tag::id:
             {
+                if (sv.size() != 24) // an object id is written as 24 hexadecimal digits
+                {
+                    ec = bson_errc::invalid_object_id_string;
+                    JSONCONS_VISITOR_RETURN;
+                }
                 before_value(jsoncons::bson::bson_type::object_id_type);
                 oid_t oid(sv);
                 for (auto b : oid)
